@@ -481,6 +481,11 @@ def run(ctx):
         else:
             nodes = gen_db.rand_gff3_graph(r, n=r.randrange(3, 12), dangling=False)
             lines = gen_db.graph_lines(nodes)
+            if i % 3 == 0:
+                # ids that LOOK generated (ID=exon_1, exon_2: the stored counters are behind them) on overlapping exons, so
+                # that merge() / children_bp(merge=True) really merge features of that type
+                lines += [gen_db.gff_line("chr1", "exon", 10 + 5 * k, 30 + 5 * k, "+", [("ID", ["exon_%d" % (k + 1)])] +
+                                          ([("Parent", [nodes[0]["id"]])] if k else [])) for k in range(3)]
             fname = "r.gff3"
         if not lines:
             continue
